@@ -412,6 +412,35 @@ func c07WordProgress(w *World, r *Report) {
 			sure = sure.union(stuck.complement())
 		}
 	}
+	// the other spelling: read first, give the rune back when it ends the word — a next() that is
+	// reached whatever the input is, and the runes for which no backup() follows it
+	backup := w.SSAFunc(w.Method("parse", "lexer", "backup"))
+	for _, b := range word.Blocks {
+		for _, in := range b.Instrs {
+			c, ok := in.(*ssa.Call)
+			if !ok || c.Call.StaticCallee() != next || backup == nil {
+				continue
+			}
+			if always, decided := pcEvalFree(sym.PathCond(word.Blocks[0], b, nil), func(*pcAtom) (bool, bool) { return false, false }); !decided || !always {
+				continue
+			}
+			unread := pcZ
+			for _, bb := range word.Blocks {
+				for _, in2 := range bb.Instrs {
+					if bc, ok := in2.(*ssa.Call); ok && bc.Call.StaticCallee() == backup && (bb != b || true) {
+						if bb == b {
+							unread = pcT
+						} else {
+							unread = pcOrF(unread, sym.PathCond(b, bb, nil))
+						}
+					}
+				}
+			}
+			if stuck, decided := pcValuesWhen(unread, sym.Key(c, nil)); decided {
+				sure = sure.union(stuck.complement())
+			}
+		}
+	}
 	missing := handed.minus(sure)
 	if os.Getenv("YV_DEBUG") != "" {
 		fmt.Println("DEBUG R07.11 reaches:", reaches.String(), "subjects:", subjects, "handed:", handed.String(), "sure:", sure.String())
